@@ -286,6 +286,9 @@ func nodeProps(n pipeline.Node, ref func(pipeline.Node) (string, bool)) string {
 	}
 	d.b.WriteString(fmt.Sprintf("%T wants=%v provides=%v quiet=%v ", n, n.Wants(), n.Provides(), n.IsQuiet()))
 	d.value(rv, false)
+	if q, ok := n.(*pipeline.InfluxQLNode); ok {
+		d.b.WriteString(" Probe=" + reducerProbe(q))
+	}
 	return d.b.String()
 }
 
